@@ -37,6 +37,7 @@ type Session struct {
 	marshal         func(interface{}) ([]byte, error)
 	lastActs        int
 	lastHsync       string
+	lastCwalk       string
 	ctx             context.Context
 }
 
@@ -66,6 +67,8 @@ func (s *Session) remoteConfig() *mast.RemoteConfig {
 		NodeCache:               s.Cache,
 		KeyCompare:              s.keyCompare,
 		Marshal:                 s.marshal,
+
+		UnmarshalerUsesRegisteredTypes: s.Cfg.RegMode(),
 	}
 }
 
@@ -154,6 +157,9 @@ func (s *Session) Exec(line string) (obs string, viol string) {
 	}
 	tree := func(i int) *mast.Mast { return s.Trees[int(num(i))] }
 	if o, v, ok := s.Exec2(t, num); ok {
+		if t[0] == "cwalk" {
+			s.lastCwalk = o
+		}
 		return o, v
 	}
 	switch t[0] {
@@ -478,6 +484,9 @@ func (s *Session) ModelLine(line string) string {
 	t := strings.Fields(line)
 	if t[0] == "hsync" {
 		return s.lastHsync
+	}
+	if t[0] == "cwalk" {
+		return "echo " + s.lastCwalk
 	}
 	if t[0] == "vcheck" || t[0] == "twostore" {
 		return "echo ok"
